@@ -59,7 +59,8 @@ func (x *NotExpr) Eval(ok func(tag string) bool) bool {
 func (x *NotExpr) String() string {
 	s := x.X.String()
 	switch x.X.(type) {
-	case *AndExpr, *OrExpr:
+	case *AndExpr, *OrExpr, *NotExpr:
+		// "!!a" is rejected by the parser (double negation): print "!(!a)"
 		s = "(" + s + ")"
 	}
 	return "!" + s
